@@ -9,6 +9,14 @@ selection order is PB/Spec/Updater.lean).
 namespace PB.C19
 open PB PB.Updater PB.Updater.Spec
 
+/-! ### "Newest" is well defined -/
+
+/-- The order on version numbers (go-version's `Compare` on `x.y.z(-alpha)`) is a strict total order:
+    irreflexive, transitive, and two versions neither of which is older are equal. -/
+theorem version_order_strict_total (a b c : Ver) :
+    a.lt a = false ∧ (a.lt b = true → b.lt c = true → a.lt c = true) ∧ (a.lt b = false → b.lt a = false → a = b) :=
+  ⟨Ver.lt_irrefl a, Ver.lt_trans a b c, Ver.lt_total a b⟩
+
 /-! ### Selection = the documented order -/
 
 /-- `selectVersion` (sort newest first, then the cascade) selects a version the documented order prescribes,
@@ -422,6 +430,17 @@ theorem filename_roundtrip_back (p id v : Str) (h : getIdentifierAndVersion p = 
     simp only [pathSplit_append dir hdir _ hno, splitDot_append b hnodot ext, replace_dots hp]
     rw [← hjoin, hfile]
     cases ext <;> simp [extTail]
+
+/-- Different (identifier, version) pairs of the documented form never share a file name — the storage layout
+    keeps the files of different versions (and resources) apart. -/
+theorem versioned_path_injective (id id' ver ver' : Str) (hv : matchRawVersion ver = true) (hid : ValidIdentifier id)
+    (hv' : matchRawVersion ver' = true) (hid' : ValidIdentifier id')
+    (h : getVersionedPath id ver = getVersionedPath id' ver') : id = id' ∧ ver = ver' := by
+  have h1 := filename_roundtrip id ver hv hid
+  have h2 := filename_roundtrip id' ver' hv' hid'
+  rw [h, h2] at h1
+  cases h1
+  exact ⟨rfl, rfl⟩
 
 /-! ### Regenerated regex literals -/
 
